@@ -124,6 +124,7 @@ func runC03(p *Program, r *Report) {
 	checkMemoKey(p, r, "C03.R7")
 	checkMemoKeyConditional(p, r, "C03.R7")
 	checkConditionalNamesBodyKind(p, r, "C03.R8")
+	checkOpaqueBodyNotUndone(p, r, "C03.R10")
 	checkAttrNameContinuation(p, r, "C03.R9")
 }
 
